@@ -69,7 +69,8 @@ def check(pid, tier):
         path = save_replay(pid, {"kind": "connect-trace", "verdict": verdict, "trace": traces[k]}) if len(violations) < 10 else "(not saved)"
         violations.append((pid, f"connect trace rejected: {verdict} end={traces[k]['end']}", path))
     # connect phase of whole compositions (late starts, adapters, initial pulls)
-    cfgs = tlc.emit("SchedEmit", {"FAMILY": "pair"}) + tlc.emit("SchedEmit", {"FAMILY": "chain3p"})
+    cfgs = (tlc.emit("SchedEmit", {"FAMILY": "pair"}) + tlc.emit("SchedEmit", {"FAMILY": "chain3p"})
+            + tlc.emit("SchedEmit", {"FAMILY": "fanoutshared"}))
     cap = 3000 if tier == "quick" else 30000
     if len(cfgs) > cap:
         cfgs = rng.sample(cfgs, cap)
